@@ -14,7 +14,7 @@ EXPLANATION = (
     "tree-killed-and-joined on every path; kill-tree reaps in both implementations (R-KILL-TREE); os.pipe() ends in the launch, "
     "the tracker start and fork_exec are closed or owned on all paths, the sentinel has a closing finaliser (R-SPAWN-FRESH, "
     "R-EXITCODE, R-RELAUNCH); shutdown() drops its fd-holding references. Not decided: measured counts over repeated "
-    "lifecycles. With the known findings D3/D4 the releasing paths exist but are not reached; those are reported under C01/C05."
+    "lifecycles. With the known finding D4 the releasing paths exist but are not reached; that is reported under C01/C05/C07."
 )
 
 
